@@ -256,15 +256,50 @@ func ReadPatchString(s string) (Diff, error) {
 			diff = append(diff, e)
 		} else {
 			i := len(diff) - 1
-			if diff[i].Path.JsonNode().Equals(e.Path.JsonNode()) {
+			if diff[i].Path.JsonNode().Equals(e.Path.JsonNode()) && canCoalesce(diff[i], e) {
 				diff[i].Remove = append(diff[i].Remove, e.Remove...)
-				// Must be done in reverse order
-				diff[i].Add = append(e.Add, diff[i].Add...)
+				if isAppend(e.Path) {
+					// Appending keeps the order of the operations
+					diff[i].Add = append(diff[i].Add, e.Add...)
+				} else {
+					// Must be done in reverse order
+					diff[i].Add = append(e.Add, diff[i].Add...)
+				}
 			} else {
 				diff = append(diff, e)
 			}
 		}
 	}
+}
+
+// canCoalesce reports whether the operations of e can be folded into the
+// previous diff element on the same path without changing their meaning:
+// e must not carry context of its own (it would be dropped) and removals
+// must not follow additions (a diff element removes before it adds).
+func canCoalesce(previous, e DiffElement) bool {
+	for _, c := range e.Before {
+		if !isVoid(c) {
+			return false
+		}
+	}
+	for _, c := range e.After {
+		if !isVoid(c) {
+			return false
+		}
+	}
+	if len(e.Remove) > 0 && len(previous.Add) > 0 {
+		return false
+	}
+	return true
+}
+
+// isAppend reports whether the path ends in the append index (-).
+func isAppend(p Path) bool {
+	if len(p) == 0 {
+		return false
+	}
+	i, ok := p[len(p)-1].(PathIndex)
+	return ok && int(i) == -1
 }
 
 // setPatchDiffElementContext detects before and/or after context and
